@@ -8,6 +8,8 @@ package transport
 // property statement as the oracle.
 
 import (
+	"sync/atomic"
+	"time"
 	"bytes"
 	"context"
 	"fmt"
@@ -62,6 +64,7 @@ type vfStream struct {
 	mainChunks int
 	recLen     int
 	bigMain    bool
+	lag        bool // streamed over a slow connection (see vfBuildStream)
 }
 
 func (s *vfStream) key() string {
@@ -155,6 +158,11 @@ func vfBuildStream(t vfhelp.TB, sfs vfs.IFS, s *vfStream, payload snapio.Payload
 		// as Transport.GetStreamSink + snapshotter.Stream do: a streaming job fed
 		// through its Sink by rsm.ChunkWriter, sending over the connection
 		conn := &vfConn{}
+		if s.lag {
+			// a slow connection: nothing is serialised before the state machine has written
+			// its whole image (the streaming job queues up to 4 chunks, one more is in flight)
+			conn.gate = make(chan struct{})
+		}
 		j := newJob(context.Background(), s.shard, s.to, vfDid, true, 0, &vfTrans{conn: conn}, make(chan struct{}), sfs)
 		if err := j.connect("receiver"); err != nil {
 			t.Fatalf("connect %v", err)
@@ -163,7 +171,32 @@ func vfBuildStream(t vfhelp.TB, sfs vfs.IFS, s *vfStream, payload snapio.Payload
 		go func() { done <- j.process() }()
 		sink := &vfSink{Sink: &Sink{j: j}}
 		meta := rsm.SSMeta{From: s.from, Index: s.index, Term: s.term, OnDiskIndex: s.onDisk, Membership: s.membership, CompressionType: ct}
-		serr := snapio.StreamTo(sink, meta, snapio.Segments(pbytes, writeCuts))
+		var serr error
+		if conn.gate != nil {
+			wdone := make(chan struct{})
+			go func() {
+				serr = snapio.StreamTo(sink, meta, snapio.Segments(pbytes, writeCuts))
+				close(wdone)
+			}()
+			// the connection stays blocked until the writer is done or the queue is full
+			// (4 queued chunks + the one in flight: the writer would wait for the connection)
+			for deadline := time.Now().Add(5 * time.Second); time.Now().Before(deadline); {
+				select {
+				case <-wdone:
+					deadline = time.Now()
+				default:
+					if atomic.LoadInt32(&sink.received) >= 5 {
+						deadline = time.Now()
+					} else {
+						time.Sleep(200 * time.Microsecond)
+					}
+				}
+			}
+			close(conn.gate)
+			<-wdone
+		} else {
+			serr = snapio.StreamTo(sink, meta, snapio.Segments(pbytes, writeCuts))
+		}
 		perr := <-done
 		j.close()
 		if serr != nil || perr != nil {
@@ -192,11 +225,15 @@ func vfBuildStream(t vfhelp.TB, sfs vfs.IFS, s *vfStream, payload snapio.Payload
 type vfConn struct {
 	chunks []pb.Chunk
 	closed bool
+	gate   chan struct{}
 }
 
 func (c *vfConn) Close() { c.closed = true }
 
 func (c *vfConn) SendChunk(chunk pb.Chunk) error {
+	if c.gate != nil {
+		<-c.gate
+	}
 	// a real connection serialises the chunk before the next one is prepared
 	// (job.sendChunks reuses one data buffer)
 	chunk.Data = append([]byte{}, chunk.Data...)
@@ -216,8 +253,17 @@ func (t *vfTrans) GetSnapshotConnection(ctx context.Context, target string) (raf
 	return t.conn, nil
 }
 
-// vfSink wraps the real Sink (pb.IChunkSink of a streaming job).
-type vfSink struct{ *Sink }
+// vfSink wraps the real Sink (pb.IChunkSink of a streaming job) and counts the
+// chunks handed to it.
+type vfSink struct {
+	*Sink
+	received int32
+}
+
+func (s *vfSink) Receive(c pb.Chunk) (bool, bool) {
+	atomic.AddInt32(&s.received, 1)
+	return s.Sink.Receive(c)
+}
 
 // ---------------------------------------------------------------------------
 // the reference receiver (written from the property statement)
@@ -528,6 +574,11 @@ func vfGenContent(t *rapid.T, c vfCase, s *vfStream, sfs vfs.IFS, big bool) {
 		// at least two full 2 MiB blocks plus a partial one: the validator checks
 		// a block inside AddChunk only once two full blocks are buffered
 		p.Len = 2*snapio.BlockSize + rapid.SampledFrom([]int{-16, 1, 100, 4096, snapio.BlockSize / 2}).Draw(t, lbl+"bigextra")
+	case s.mode == "stream" && rapid.IntRange(0, 7).Draw(t, lbl+"hugestream") == 0:
+		// three full blocks and a partial one: chunks 1 and 2 are consecutive full size
+		// chunks; with a slow connection both are queued when the writer finishes
+		p.Len = 3*snapio.BlockSize + rapid.SampledFrom([]int{1, 100, 4096}).Draw(t, lbl+"hugeextra") - 16
+		s.lag = rapid.Bool().Draw(t, lbl+"lag")
 	case s.mode == "stream":
 		p.Len = rapid.OneOf(rapid.IntRange(0, 3000), rapid.IntRange(0, 3000), rapid.SampledFrom([]int{snapio.BlockSize - 16, snapio.BlockSize - 15, snapio.BlockSize + 100})).Draw(t, lbl+"len")
 	default:
